@@ -181,6 +181,9 @@ pub fn explore<S: System>(sys: &S, lim: &Limits) -> Explored<S::Op> {
                 cut_short = true;
                 break;
             }
+            // the children of the final level are never expanded: their enabled-op lists (the
+            // largest part of a node) are dropped at once, which roughly halves the peak memory
+            let last_level = lim.max_depth == Some(depth + 1);
             let outs = par_map(chunk, |node| {
                 let mut kids = Vec::with_capacity(node.next.len());
                 let mut vs = Vec::new();
@@ -199,7 +202,7 @@ pub fn explore<S: System>(sys: &S, lim: &Limits) -> Explored<S::Op> {
                         kids.push(Child {
                             key: out.key,
                             hist: h,
-                            next: out.next,
+                            next: if last_level { Vec::new() } else { out.next },
                             transcript: out.transcript,
                         });
                     }
